@@ -3,6 +3,7 @@
   `none` = unparsable query.
 
     (dist checkwf P)                 -> "true" | "false (r clause)…"
+    (dist checkwfexec P)             -> same, for the clauses the executor needs (`WFexec`)
     (dist levels P)                  -> "((r pid lvl)…)"
     (dist trace P (event…))          -> "ok <steps>" | "bad <k> <reason>"
     (dist batches G)                 -> "(((src dst tag)…)…)"
@@ -181,6 +182,11 @@ def handleDist : List Sx → Option String
     let P ← parsePartition p
     if checkWF P then some "true"
     else some ("false " ++ " ".intercalate ((failingClauses P).map fun x => s!"({x.1} {x.2})"))
+  | [.atom "checkwfexec", p] => do
+    let P ← parsePartition p
+    if checkWFexec P then some "true"
+    else some ("false " ++ " ".intercalate (((failingClauses P).filter fun x => execClauses.contains x.2).map
+      fun x => s!"({x.1} {x.2})"))
   | [.atom "levels", p] => do
     let P ← parsePartition p
     let lvl := computeLvl P
